@@ -35,14 +35,32 @@ PLT = [("foo0", "KNone"), ("foo1", "KNone"), ("foo2", "KNone"), ("foo3", "KNone"
        ("setjmp", "KSetjmp"), ("_setjmp", "KSetjmp"), ("sigsetjmp", "KSetjmp"),
        ("longjmp", "KLongjmp"), ("siglongjmp", "KLongjmp"), ("__longjmp_chk", "KLongjmp"),
        ("fork", "KFlush"), ("exit", "KFlush"), ("daemon", "KFlush"),
-       ("_Unwind_RaiseException", "KExcept"), ("pthread_exit", "KNone"), ("__sigsetjmp", "KSetjmp")]
+       ("_Unwind_RaiseException", "KExcept"), ("pthread_exit", "KNone"), ("__sigsetjmp", "KSetjmp"), ("vfork", "KFlush")]
+VFORK_IDX = 16
 KIND_IDX = {}
 for _i, (_n, _k) in enumerate(PLT):
-    KIND_IDX.setdefault(_k, []).append(_i)
+    if _n != "vfork":                   # vfork is only used by the dedicated vfork sections
+        KIND_IDX.setdefault(_k, []).append(_i)
+PLT_FL_VFORK = 8
 PLT_FL_RESOLVE = 64
 
 
 # ================================================================= operations
+def top_lines(o):
+    """harness lines of one top-level operation"""
+    if o[0] == "Vfork":
+        _, i, sl, r, child = o
+        return ["PLT %d %d %d 0" % (i, sl, r), "VCHILD"] + [op_line(c) for c in child] + ["VPARENT"]
+    return [op_line(o)]
+
+
+def top_coq(o):
+    if o[0] == "Vfork":
+        _, i, sl, r, child = o
+        return "TVfork %d %d %d [%s]" % (100 + i, sl, r, "; ".join(op_coq(c) for c in child))
+    return "TOp (%s)" % op_coq(o)
+
+
 def op_line(o):
     t = o[0]
     if t == "Call":
@@ -84,7 +102,8 @@ class Prog:
     realistic=True: every frame makes all its calls at one fixed call-site slot (as compiled code does),
     so dead slots are re-used all the time; False: free choice of slots below the newest frame."""
 
-    def __init__(self, rng, tags, realistic):
+    def __init__(self, rng, tags, realistic, with_vfork=False):
+        self.with_vfork = with_vfork
         self.rng = rng
         self.ops = []
         self.frames = []          # newest first: dict(id, slot, ra, pend, cs)
@@ -173,7 +192,7 @@ class Prog:
             return False
         f = self.frames[0]
         if any(x != plt for x in f["pend"]):
-            return False          # keep out of the mixed-kind chain class (C11_rehook_mixed_chain_refuted)
+            self.tags.add("tail-call-mixed-chain")
         if plt:
             self.emit("TPlt", self.rng.choice(KIND_IDX["KNone"]), f["slot"])
         else:
@@ -231,6 +250,51 @@ class Prog:
         self.tags.add("longjmp-across-%s" % ("0" if drop == 0 else ("1" if drop == 1 else ">=2")))
         if any(len(f["pend"]) > 1 for f in self.frames):
             self.tags.add("longjmp-over-live-chain")
+        return True
+
+    # ---- vfork ------------------------------------------------------------
+    def vfork(self):
+        """a vfork section: the child works on the parent's stack above the current frames, then execs/exits"""
+        # (with an empty shadow stack the parent takes plthook_exit's "FIXME" path: restore_vfork(NULL) and then a
+        #  second setup_vfork in the parent - control is right, the parent's trace buffer is not; not generated)
+        if self.flight or self.exc or not any(f["pend"] for f in self.frames):
+            return False
+        s, r = self.call_slot(), self.ra()
+        main_ops, self.ops = self.ops, []
+        saved = [dict(f) for f in self.frames]
+        floor = len(self.frames)
+        self.nid += 1                        # the frame of vfork itself (pushed, then popped by the child's return)
+        for _ in range(self.rng.randrange(0, 9)):
+            x = self.rng.random()
+            d = len(self.frames) - floor
+            if x < 0.35 and d < 5:
+                self.call()
+            elif x < 0.45:
+                self.ucall()
+            elif x < 0.6:
+                self.plt()
+            elif x < 0.68 and d > 0:
+                self.tail(self.rng.random() < 0.3)
+            elif x < 0.76 and d > 0:
+                self.setjmp()
+            elif x < 0.84 and d > 1:
+                # an exception caught inside the child (never below the frames of the parent)
+                n0 = len(self.frames)
+                keep = self.frames[d:]
+                self.frames = self.frames[:d]
+                ok = self.throw()
+                self.frames = self.frames + keep
+            elif d > 0:
+                self.ret()
+        if self.rng.random() < 0.7:
+            self.plt("KFlush")               # exec*/_exit stand-in: never returns
+            self.tags.add("vfork-child-execs-nested-%d" % min(len(self.frames) - floor - 1, 3))
+        child, self.ops = self.ops, main_ops
+        self.frames = saved
+        self.flight, self.exc, self.extra, self.stale = False, False, 0, []
+        self.emit("Vfork", VFORK_IDX, s, r, child)
+        self.tags.add("vfork")
+        self.tags.add("vfork-child-ops-%s" % ("0" if not child else ("1-3" if len(child) <= 3 else ">3")))
         return True
 
     # ---- exceptions -------------------------------------------------------
@@ -327,6 +391,8 @@ class Prog:
                     self.plt("KFlush")
             elif x < 0.40:
                 self.tail(rng.random() < 0.3)
+            elif self.with_vfork and x < 0.47:
+                self.vfork()
             elif x < 0.52:
                 self.setjmp()
             elif x < 0.62:
@@ -378,8 +444,8 @@ def gen_free(rng, n):
 WITNESS_RESUME_ALIAS = [      # regression (fixed by /repo 0bd540c): _Unwind_Resume at the slot of the frame just unwound
     ("Call", 0, 100, 11, 103), ("Call", 1, 90, 12, 99), ("Call", 2, 80, 13, 89),
     ("Throw",), ("Unwind",), ("Resume", 80, 14), ("Unwind",), ("Catch", 99), ("Ret", 100)]
-MIXED_CHAIN = [               # PLT function tail-calls a traced function that throws and catches itself
-    ("Call", 0, 100, 11, 103), ("Plt", 0, 90, 12, 0), ("TCall", 1, 90, 92), ("Throw",), ("Catch", 89), ("Ret", 90)]
+MIXED_CHAIN = [               # regression (/repo fix C01-9): PLT function tail-calls a traced function that throws and catches
+    ("Call", 0, 100, 11, 103), ("Plt", 0, 90, 12, 0), ("TCall", 1, 90, 92), ("Throw",), ("Catch", 89), ("Ret", 90), ("Ret", 100)]
 WITNESS_FENTRY = [            # -mfentry style frame address: the dead callee's entry survives as a phantom parent
     ("Call", 0, 100, 11, 103), ("Call", 1, 90, 12, 99), ("Call", 2, 80, 13, 89), ("Throw",), ("Unwind",),
     ("Call", 6, 80, 19, 0), ("Ret", 80)]
@@ -416,7 +482,7 @@ class Harness:
         e = {k: v for k, v in os.environ.items() if not k.startswith("UFTRACE_")}
         e["UFTRACE_DIR"] = d
         e["UFTRACE_BUFFER"] = str(1 << 20)
-        text = "\nNEXT\n".join("\n".join(op_line(o) for o in ops) + "\nDUMP" for ops in scripts) + "\n"
+        text = "\nNEXT\n".join("\n".join(l for o in ops for l in top_lines(o)) + "\nDUMP" for ops in scripts) + "\n"
         p = subprocess.run([self.exe], input=text, env=e, capture_output=True, text=True, timeout=600)
         for f in os.listdir(d):
             if f.startswith("sid-"):
@@ -489,6 +555,18 @@ def case_coq(ops, res):
         coq.coq_bool(res["crashed"]))
 
 
+def case_coqT(ops, res):
+    ds = []
+    for d in res["digests"]:
+        ds += digest_flat(d)
+    rs = []
+    for r in res["recs"]:
+        rs += list(r)
+    return "([%s],\n  [%s],\n  [%s], %s)" % (
+        "; ".join(top_coq(o) for o in ops), ";".join("%d" % x for x in ds), ";".join("%d" % x for x in rs),
+        coq.coq_bool(res["crashed"]))
+
+
 PRE = """From Coq Require Import NArith List Bool.
 Import ListNotations.
 Require Import UV.C11.Model.
@@ -499,11 +577,19 @@ Local Open Scope N_scope.
 def flags_term(flags):
     items = []
     for name, kind in PLT:
-        items.append("(%s, %d)" % (kind, flags.get(name, 9999) & ~PLT_FL_RESOLVE))
+        f = flags.get(name, 9999) & ~PLT_FL_RESOLVE
+        if name == "vfork":
+            f = (f & ~PLT_FL_VFORK) if f & PLT_FL_VFORK else 9999       # FLUSH | VFORK expected
+        items.append("(%s, %d)" % (kind, f))
     return "[%s]" % "; ".join(items)
 
 
 def _eval_chunk(ctx, name, kind, cases, flags):
+    if kind == "vfork":
+        defs = "Definition cs : list fcaseT := [\n%s\n].\n" % ";\n".join(case_coqT(o, r) for o, r in cases)
+        res = coq.run_cases(ctx, name, PRE, defs, [("mismatch", "bad_indices fagreeT cs 0"), ("violations", "bad_indices fokT cs 0"),
+                                                   ("illegal", "bad_indices flegalT cs 0")])
+        return None if res is None else {k: coq.parse_nat_list(v) for k, v in res.items()}
     defs = "Definition cs : list fcase := [\n%s\n].\n" % ";\n".join(case_coq(o, r) for o, r in cases)
     evals = [("mismatch", "bad_indices fagree cs 0")]
     if kind == "legal":
@@ -517,14 +603,15 @@ def _eval_chunk(ctx, name, kind, cases, flags):
     return {k: coq.parse_nat_list(v) for k, v in res.items()}
 
 
-def evaluate_inproc(ctx, legal, free, flags, name="cases", chunk=40):
+def evaluate_inproc(ctx, legal, free, flags, name="cases", chunk=40, vforks=()):
     """model vs implementation and checker on implementation, inside Coq; chunks evaluated in parallel"""
     from concurrent.futures import ThreadPoolExecutor
     jobs = []
-    for kind, cases in (("legal", legal), ("free", free)):
+    for kind, cases in (("legal", legal), ("free", free), ("vfork", list(vforks))):
         for k in range(0, len(cases), chunk):
             jobs.append((kind, k, cases[k:k + chunk]))
-    out = {"mismatch_legal": [], "mismatch_free": [], "violations": [], "illegal": [], "flags_bad": []}
+    out = {"mismatch_legal": [], "mismatch_free": [], "mismatch_vfork": [], "violations": [], "illegal": [], "flags_bad": [],
+           "violations_vfork": [], "illegal_vfork": []}
     if not jobs:
         return out
     with ThreadPoolExecutor(max_workers=8) as ex:
@@ -535,8 +622,9 @@ def evaluate_inproc(ctx, legal, free, flags, name="cases", chunk=40):
         if r is None:
             return None
         out["mismatch_" + kind] += [k + i for i in r["mismatch"]]
-        out["violations"] += [k + i for i in r.get("violations", [])]
-        out["illegal"] += [k + i for i in r.get("illegal", [])]
+        sfx = "_vfork" if kind == "vfork" else ""
+        out["violations" + sfx] += [k + i for i in r.get("violations", [])]
+        out["illegal" + sfx] += [k + i for i in r.get("illegal", [])]
         out["flags_bad"] += r.get("flags_bad", [])
     return out
 
@@ -558,8 +646,10 @@ PRELUDE_C = r"""
 #include <unistd.h>
 #include <pthread.h>
 #include <sys/wait.h>
+#include <sys/time.h>
 static __thread volatile int D;   /* the program's own idea of its call depth */
 static __thread int TASK;
+static volatile int AD;         /* depth at which the atexit handlers run */
 static volatile int sink;
 static jmp_buf jb[8];
 #define NI __attribute__((noinline))
@@ -593,6 +683,13 @@ class E2EGen:
         self.allow_old = allow_old_jmpbuf
         self.thread_used = False
         self.has_sig = False
+        self.fork_used = False
+        self.in_phase2 = False
+        self.exec_body = None
+        self.atexit_fn = None
+        self.exc_flavor = rng.choice(["int", "class", "std"])
+        # (an asynchronous signal with a traced handler while a C++ exception propagates is a listed finding)
+        self.timer = lang == "c" and rng.random() < 0.35
 
     def new_func(self):
         self.nf += 1
@@ -654,7 +751,7 @@ class E2EGen:
                 lines += body
                 if term == ("throw",):
                     self.tags.add("catch")
-                    lines.append(ind + "} catch (int ev_) { D = sd_; logline(\"C\", \"catch\", ev_);")
+                    lines.append(ind + "} %s D = sd_; logline(\"C\", \"catch\", ev_);" % self.catch_head())
                     # calls made by the handler may throw past it (regression class of fix 0bd540c)
                     hb, term2 = self.gen_body(depth, active_jbs, in_try, in_thread, ind + "\t")
                     if term2 == ("throw",):
@@ -668,13 +765,13 @@ class E2EGen:
                     if term2:
                         return lines, term2
                 else:
-                    lines.append(ind + "} catch (int ev_) { D = sd_; logline(\"C\", \"catch\", ev_); } }")
+                    lines.append(ind + "} %s D = sd_; logline(\"C\", \"catch\", ev_); } }" % self.catch_head())
                     if term:
                         return lines, term
             elif x < 0.74 and self.lang == "c++" and in_try > 0:
                 self.tags.add("throw")
                 self.tags.add("throw-depth-%d" % min(depth, 5))
-                lines.append(ind + "throw %d;" % rng.randrange(1, 50))
+                lines.append(ind + self.throw_stmt(rng.randrange(1, 50)))
                 return lines, ("throw",)
             elif x < 0.78 and not in_thread and not self.has_sig:
                 self.has_sig = True
@@ -688,24 +785,56 @@ class E2EGen:
                                    "int st_ = 0; waitpid(p_, &st_, 0); sink += WEXITSTATUS(st_); }")
             elif x < 0.86 and not in_thread and self.lang == "c":
                 self.tags.add("fork")
-                lines.append(ind + "{ pid_t p_ = fork(); if (p_ == 0) { _exit(3); } int st_ = 0; waitpid(p_, &st_, 0); sink += WEXITSTATUS(st_); }")
+                if not self.fork_used and rng.random() < 0.7 and depth < 8:
+                    # the child makes traced calls of its own before it exits (its log is task 2)
+                    self.fork_used = True
+                    self.tags.add("fork-child-calls")
+                    cfn, _t = self.gen_func(depth + 2, [], 0, "child", leafish=rng.random() < 0.4)
+                    lines.append(ind + "{ pid_t p_ = fork(); if (p_ == 0) { TASK = 2; CALL(%s, 2); _exit(3); } "
+                                       "int st_ = 0; waitpid(p_, &st_, 0); sink += WEXITSTATUS(st_); }" % cfn)
+                else:
+                    lines.append(ind + "{ pid_t p_ = fork(); if (p_ == 0) { _exit(3); } int st_ = 0; waitpid(p_, &st_, 0); sink += WEXITSTATUS(st_); }")
             elif x < 0.90 and not in_thread and not self.thread_used and in_try == 0 and not active_jbs and self.lang == "c":
                 self.thread_used = True
                 self.tags.add("thread")
                 fn, term = self.gen_func(0, [], 0, True, thread_root=True)
                 lines.append(ind + "{ pthread_t t_; pthread_create(&t_, NULL, th_main, NULL); pthread_join(t_, NULL); }")
                 self.thread_entry = fn
-            elif x < 0.93 and in_thread and depth >= 1 and self.lang == "c":
+            elif x < 0.93 and in_thread is True and depth >= 1 and self.lang == "c":
                 self.tags.add("pthread_exit-nested-%d" % min(depth, 3))
                 lines.append(ind + "pthread_exit(NULL);")
                 return lines, ("texit",)
             elif x < 0.95 and not in_thread and depth >= 2 and in_try == 0:
                 self.tags.add("exit-nested")
-                lines.append(ind + "exit(%d);" % rng.randrange(0, 40))
+                lines.append(ind + "D++; AD = D; exit(%d);" % rng.randrange(0, 40))
+                return lines, ("exit",)
+            elif x < 0.965 and not in_thread and depth >= 1 and in_try == 0 and not active_jbs and self.exec_body is None \
+                    and not self.in_phase2 and self.budget > 3 and not self.timer:
+                # exec of the program itself: the second phase starts again at depth 0 in the same task
+                self.tags.add("exec-self")
+                self.tags.add("exec-depth-%d" % min(depth, 4))
+                lines.append(ind + "execl(\"/proc/self/exe\", \"p\", \"2\", (char *)0); _exit(98);")
+                self.in_phase2 = True
+                saved = (self.njb, self.latest_jb)
+                self.exec_body, _t = self.gen_body(0, [], 0, False)
                 return lines, ("exit",)
             else:
                 lines.append(ind + "sink += %d;" % rng.randrange(1, 9))
         return lines, None
+
+    def catch_head(self):
+        if self.exc_flavor == "class":
+            return "catch (Ex ex_) { int ev_ = ex_.v;"          # by value: copy constructor runs in the landing pad
+        if self.exc_flavor == "std":
+            return "catch (const std::exception &ex_) { int ev_ = atoi(ex_.what());"
+        return "catch (int ev_) {"
+
+    def throw_stmt(self, v):
+        if self.exc_flavor == "class":
+            return "throw Ex(%d);" % v
+        if self.exc_flavor == "std":
+            return "throw std::runtime_error(\"%d\");" % v
+        return "throw %d;" % v
 
     def gen_func(self, depth, active_jbs, in_try, in_thread, leafish=False, thread_root=False):
         name = self.new_func()
@@ -724,8 +853,12 @@ class E2EGen:
             self.tags.add("tail-position-call")
         lines = ["static NI int %s(int x)" % name, "{", "\tENTER(\"%s\");" % name]
         if guard:
-            lines.append("\tGuard g_(%d);" % self.rng.randrange(1, 9))
-            self.tags.add("cleanup-guard")
+            if self.rng.random() < 0.35:
+                lines.append("\tIGuard ig_(%d);" % self.rng.randrange(1, 9))
+                self.tags.add("cleanup-guard-inline-libcall")
+            else:
+                lines.append("\tGuard g_(%d);" % self.rng.randrange(1, 9))
+                self.tags.add("cleanup-guard")
         lines += body
         if tail:
             lines.append("\treturn %s(x + 1);" % tail)
@@ -737,23 +870,46 @@ class E2EGen:
 
     def source(self):
         rng = self.rng
+        use_atexit = rng.random() < 0.3
+        if use_atexit:
+            self.atexit_fn, _t = self.gen_func(1, [], 0, False, leafish=True)
+            self.tags.add("atexit-handler")
+        if self.timer:
+            self.tags.add("async-timer-signal")
         body, term = self.gen_body(0, [], 0, False)
         out = [PRELUDE_C]
         if self.lang == "c++":
-            out.append("struct Guard { int v; int d0; NI Guard(int v_) : v(v_), d0(D) { sink += v; }\n"
-                       "  NI ~Guard() { D = d0; logline(\"E\", \"dtor\", D); sink += v; } };\n")
+            out.append("#include <stdexcept>\n#include <exception>\n"
+                       "struct Ex { int v; NI Ex(int v_) : v(v_) {} NI Ex(const Ex &o) : v(o.v) { sink += 0; } };\n"
+                       "struct Guard { int v; int d0; NI Guard(int v_) : v(v_), d0(D) { sink += v; }\n"
+                       "  NI ~Guard() { D = d0; logline(\"E\", \"dtor\", D); sink += v; } };\n"
+                       "struct IGuard { int v; IGuard(int v_) : v(v_) {} ~IGuard() { puts(\"g\"); } };\n")
         for name, _ in self.funcs:
             out.append("static int %s(int x);" % name)
         if self.has_sig:
             out.append("static void on_sig(int s) { (void)s; int s_ = D; D++; sink += %s(1); D = s_; }" % self.sig_handler)
+        if self.timer:
+            # asynchronous: the handler is traced but touches nothing the program prints
+            out.append("static volatile long ticks_;\nstatic NI int tick_leaf(int x) { return x + 1; }\n"
+                       "static NI void on_tick(int s) { (void)s; ticks_ += tick_leaf(1); }")
         if self.thread_used:
             out.append("static void *th_main(void *a) { (void)a; TASK = 1; D = 1; sink += %s(1); return NULL; }" % self.thread_entry)
-        # callees are defined after their callers (prototypes above): bodies in reverse creation order
+        if use_atexit:
+            out.append("static void at_exit_fn(void) { D = AD + 1; sink += %s(1); }" % self.atexit_fn)
         for name, lines in self.funcs:
             out.append("\n".join(lines))
-        out.append("int main(void)\n{\n\tsetvbuf(stdout, NULL, _IONBF, 0);\n\tENTER(\"main\");")
+        out.append("int main(int argc, char **argv)\n{\n\tsetvbuf(stdout, NULL, _IONBF, 0);\n\t(void)argv;")
+        if self.timer:
+            out.append("\t{ struct itimerval it_ = { { 0, 200 }, { 0, 200 } }; signal(SIGALRM, on_tick); setitimer(ITIMER_REAL, &it_, NULL); }")
+        out.append("\tENTER(\"main\");")
+        if use_atexit:
+            out.append("\tatexit(at_exit_fn);")
+        if self.exec_body is not None:
+            out.append("\tif (argc > 1) {")
+            out += self.exec_body
+            out.append("\t\tlogline(\"S\", \"sink2\", sink);\n\t\tAD = 0; return sink & 31;\n\t}")
         out += body
-        out.append("\tlogline(\"S\", \"sink\", sink);\n\treturn sink & 63;\n}")
+        out.append("\tlogline(\"S\", \"sink\", sink);\n\tAD = 0;\n\treturn sink & 63;\n}")
         return "\n".join(out) + "\n"
 
 
@@ -817,6 +973,73 @@ __attribute__((noinline)) void t1(int x) { try { t2(x); } catch (int e) { sink +
 int main() { t1(1); printf("%d\n", sink); return 0; }
 """
 
+E2E_WITNESS_ABANDONED_LIBCALL_LJ = r"""
+#define _GNU_SOURCE
+#include <stdio.h>
+#include <signal.h>
+#include <setjmp.h>
+static sigjmp_buf jb; static volatile int sink;
+__attribute__((noinline)) int leaf(int x) { sink += x; return x; }
+__attribute__((noinline)) void on_sig(int s) { (void)s; leaf(1); siglongjmp(jb, 1); }
+__attribute__((noinline)) int deep(int d) { if (d == 0) { raise(SIGUSR1); return 0; } return deep(d - 1) + 1; }
+__attribute__((noinline)) int work(int k) { if (sigsetjmp(jb, 1) == 0) { deep(3); leaf(100); } else { leaf(10 + k); } return leaf(20); }
+int main(void) { signal(SIGUSR1, on_sig); work(1); work(2); work(3); leaf(30); printf("%d\n", sink); return 0; }
+"""
+
+E2E_WITNESS_ABANDONED_LIBCALL_EXC = r"""
+#include <cstdio>
+#include <cstdlib>
+volatile int sink;
+__attribute__((noinline)) int cmp(const void *a, const void *b) { sink++; if (sink == 2 || sink == 5) throw 1; return *(const int *)a - *(const int *)b; }
+__attribute__((noinline)) int sorter() { int v[4] = {4, 3, 2, 1}; try { qsort(v, 4, sizeof(int), cmp); } catch (int) { return 0; } return v[0]; }
+int main() { sorter(); sorter(); sorter(); printf("%d\n", sink); return 0; }
+"""
+
+E2E_WITNESS_HANDLER_IN_LONGJMP = PRELUDE_C + r"""
+static sigjmp_buf sjb;
+static NI int fn_leaf(int x) { ENTER("fn_leaf"); return x + 1; }
+static NI int hleaf(int x) { return x + 1; }
+static NI void on_usr2(int s) { (void)s; sink += hleaf(1); }     /* shown inside siglongjmp, not judged */
+static NI int fn_jumper(int d) { ENTER("fn_jumper"); if (d == 0) siglongjmp(sjb, 1); CALL(fn_jumper, d - 1); return d; }
+static NI int fn_work(int x)
+{
+	sigset_t set; volatile int sd_;
+	ENTER("fn_work");
+	sigemptyset(&set); sigaddset(&set, SIGUSR2);
+	sd_ = D;
+	if (sigsetjmp(sjb, 1) == 0) {
+		sigprocmask(SIG_BLOCK, &set, NULL);
+		raise(SIGUSR2);              /* stays pending until siglongjmp restores the mask, i.e. inside siglongjmp */
+		CALL(fn_jumper, 2);
+	}
+	D = sd_;
+	CALL(fn_leaf, 10);
+	return x;
+}
+int main(void) { setvbuf(stdout, NULL, _IONBF, 0); ENTER("main"); signal(SIGUSR2, on_usr2); CALL(fn_work, 1); CALL(fn_leaf, 2);
+	CALL(fn_work, 2); CALL(fn_leaf, 3); logline("S", "sink", sink); return 0; }
+"""
+
+E2E_WITNESS_SIGNAL_IN_UNWIND = r"""
+#include <cstdio>
+#include <csignal>
+#include <sys/time.h>
+static volatile long ticks; volatile int sink;
+__attribute__((noinline)) int hleaf(int x) { return x + 1; }
+__attribute__((noinline)) void on_alarm(int) { ticks += hleaf(1); }
+__attribute__((noinline)) int deep(int d) { if (d == 0) throw 1; return deep(d - 1) + 1; }
+int main()
+{
+	struct itimerval it = { { 0, 100 }, { 0, 100 } };
+	signal(SIGALRM, on_alarm);
+	setitimer(ITIMER_REAL, &it, NULL);
+	for (int i = 0; i < 3000; i++) { try { deep(60); } catch (int) { sink++; } }
+	it.it_value.tv_usec = 0; it.it_interval.tv_usec = 0; setitimer(ITIMER_REAL, &it, NULL);
+	printf("%d %d\n", sink, ticks > 0);
+	return 0;
+}
+"""
+
 E2E_WITNESS_PTHREAD_EXIT_C = r"""
 #include <stdio.h>
 #include <pthread.h>
@@ -826,6 +1049,35 @@ __attribute__((noinline)) int f(int x) { sink += g(x); return x + 1; }
 void *th(void *a) { sink += f(1); return NULL; }
 __attribute__((noinline)) int after(int x) { sink += x; return x; }
 int main(void) { pthread_t t; pthread_create(&t, NULL, th, NULL); pthread_join(t, NULL); after(2); printf("%d\n", sink); return 0; }
+"""
+
+E2E_WITNESS_NEST_LIBCALL = r"""
+#include <cstdio>
+#include <string>
+__attribute__((noinline)) int thrower(int x) { if (x > 0) throw std::string("x"); return x; }
+int main() { int s = 0; try { s += thrower(1); } catch (std::string &e) { s += (int)e.size(); } printf("%d\n", s); return 6; }
+"""
+
+E2E_WITNESS_NEST_LIBCALL_CATCH = r"""
+#include <cstdio>
+volatile int sink;
+#define NI __attribute__((noinline))
+struct Guard { int v; NI Guard(int v_) : v(v_) { sink += v; } NI ~Guard() { sink += v; printf("dtor %d\n", v); } };
+struct IGuard { int v; IGuard(int v_) : v(v_) {} ~IGuard() { puts("g"); } };
+NI int f14(int x) { IGuard ig(2); puts("p"); throw 49; return x; }
+NI int f12(int x) { Guard g(6); sink += f14(x); return x; }
+NI int f9(int x) { sink += f12(x); return x + 1; }
+NI int f8(int x) { try { sink += f9(x); } catch (int e) { printf("catch %d\n", e); throw 48; } return x; }
+NI int f7(int x) { Guard g(5); sink += f8(x); return x; }
+int main() { try { sink += f7(1); } catch (int e) { printf("catch %d\n", e); } printf("sink %d\n", sink); return 3; }
+"""
+
+E2E_WITNESS_NEST_LIBCALL_RETHROW = r"""
+#include <cstdio>
+volatile int sink;
+__attribute__((noinline)) int thrower(int x) { if (x > 0) throw 42; return x; }
+__attribute__((noinline)) int mid(int x) { try { sink += thrower(x); } catch (int e) { sink += e; throw; } return x; }
+int main() { try { mid(1); } catch (int e) { sink += 10 * e; } printf("%d\n", sink); return 5; }
 """
 
 E2E_WITNESS_MAX_STACK = r"""
@@ -846,7 +1098,98 @@ void *th(void *a) { G b(100); sink += g(1); return NULL; }
 int main(void) { pthread_t t; pthread_create(&t, NULL, th, NULL); pthread_join(t, NULL); printf("%d\n", sink); return 0; }
 """
 
-FLAGS = {"c": [["-pg", "-O0"], ["-pg", "-O2"], ["-finstrument-functions", "-O0"], ["-finstrument-functions", "-O2"]],
+
+XJMP_PRELUDE = PRELUDE_C + r"""
+#include <sched.h>
+static sigjmp_buf sjb[8];
+static volatile int turn_;
+__attribute__((no_instrument_function)) static void wait_turn(int k)
+{	/* no library call here: it would be traced; a raw sched_yield system call now and then */
+	unsigned n_ = 0;
+	while (__atomic_load_n(&turn_, __ATOMIC_ACQUIRE) != k) {
+		if (++n_ % 64 == 0) { long r_; __asm__ volatile("syscall" : "=a"(r_) : "0"(24L) : "rcx", "r11", "memory"); }
+		else __builtin_ia32_pause();
+	}
+}
+__attribute__((no_instrument_function)) static void next_turn(void)
+{ __atomic_fetch_add(&turn_, 1, __ATOMIC_ACQ_REL); }
+static NI int fn_leaf(int x) { ENTER("fn_leaf"); return x + 1; }
+"""
+
+
+def gen_xjmp(rng, force_cross=False):
+    """several threads, each with its own jmp_buf: setjmp at a random depth, longjmp from a few frames deeper, calls
+    after the jump.  The threads run one at a time (a baton is passed at the segment boundaries begin / setjmp /
+    longjmp), in a random interleaving: replay reads `A:setjmp < B:setjmp < A:longjmp` with B's setjmp shallower or
+    deeper than A's, so the `latest setjmp` it guesses at A's longjmp (file-level statics in utils/fstack.c) is another
+    task's.  -> (source, tags)"""
+    nt = 2 if force_cross else rng.choice([2, 2, 3])
+    letters = "abc"
+    # random interleaving of the 3 segments of every thread
+    pend = [[(t, 0), (t, 1), (t, 2)] for t in range(nt)]
+    order = []
+    while any(pend):
+        t = rng.choice([i for i in range(nt) if pend[i]])
+        order.append(pend[t].pop(0))
+    depth = [rng.randint(1, 5) for _ in range(nt)]
+    if force_cross:
+        # A:setjmp (deep) < B:setjmp (shallower) < A:longjmp
+        order = [(0, 0), (1, 0), (0, 1), (1, 1), (0, 2), (1, 2)] if rng.random() < 0.5 else \
+                [(1, 0), (0, 0), (0, 1), (1, 1), (1, 2), (0, 2)]
+        depth = [rng.randint(3, 5), rng.randint(1, 2)]
+    turn = {ev: i for i, ev in enumerate(order)}
+    tags = {"xjmp", "thread", "longjmp", "xjmp:threads=%d" % nt}
+    out = [XJMP_PRELUDE]
+    for t in range(nt):
+        L = letters[t]
+        k, j = depth[t], rng.randint(0, 3)
+        fam = rng.choice([("setjmp(jb[%d])", "longjmp(jb[%d], 1)"), ("_setjmp(jb[%d])", "longjmp(jb[%d], 1)"),
+                          ("sigsetjmp(sjb[%d], 1)", "siglongjmp(sjb[%d], 1)")])
+        names = ["fn_%s%d" % (L, i + 1) for i in range(k)] + ["fn_%sm%d" % (L, i + 1) for i in range(j)]
+        for nme in names:
+            out.append("static int %s(int x);" % nme)
+        jump = ("next_turn(); wait_turn(%d); logline(\"L\", \"jb\", %d); %s;" % (turn[(t, 2)], t, fam[1] % t))
+        # the frames between the setjmp and the longjmp
+        for i in range(j):
+            nme = "fn_%sm%d" % (L, i + 1)
+            pre = "CALL(fn_leaf, 1); " if rng.random() < 0.4 else ""
+            if i == j - 1:
+                out.append("static NI int %s(int x) { ENTER(\"%s\"); %s%s return x; }" % (nme, nme, pre, jump))
+            else:
+                out.append("static NI int %s(int x) { ENTER(\"%s\"); %sCALL(fn_%sm%d, 1); return x; }" % (nme, nme, pre, L, i + 2))
+        down = "CALL(fn_%sm1, 1);" % L if j else jump
+        after = " ".join("CALL(fn_leaf, %d);" % (i + 2) for i in range(rng.randint(1, 3)))
+        for i in range(k):
+            nme = "fn_%s%d" % (L, i + 1)
+            post = "CALL(fn_leaf, 9); " if rng.random() < 0.6 else ""
+            if i == k - 1:
+                out.append("static NI int %s(int x) { ENTER(\"%s\"); { volatile int sd_ = D;\n"
+                           "\tnext_turn(); wait_turn(%d); logline(\"J\", \"jb\", %d);\n"
+                           "\tif (%s == 0) { %s } else { D = sd_; %s } }\n\t%sreturn x; }"
+                           % (nme, nme, turn[(t, 1)], t, fam[0] % t, down, after, post))
+            else:
+                out.append("static NI int %s(int x) { ENTER(\"%s\"); CALL(fn_%s%d, 1); %sreturn x; }" % (nme, nme, L, i + 2, post))
+        out.append("static void *th_%s(void *p) { (void)p; TASK = %d; D = 1; wait_turn(%d); sink += fn_%s1(1); next_turn(); return NULL; }"
+                   % (L, t + 1, turn[(t, 0)], L))
+        # was the latest setjmp in the trace another task's when this task jumped, and at which depth?
+        lj = order.index((t, 2))
+        last_sj = max((order.index((u, 1)), u) for u in range(nt) if order.index((u, 1)) < lj)[1]
+        if last_sj != t:
+            tags.add("xjmp:foreign-guess-%s" % ("shallower" if depth[last_sj] < depth[t] else
+                                                "deeper" if depth[last_sj] > depth[t] else "same-depth"))
+        else:
+            tags.add("xjmp:own-guess")
+    out.append("int main(void)\n{\n\tpthread_t th[%d];\n\tsetvbuf(stdout, NULL, _IONBF, 0);\n\tENTER(\"main\");" % nt)
+    for t in range(nt):
+        out.append("\tpthread_create(&th[%d], NULL, th_%s, NULL);" % (t, letters[t]))
+    for t in range(nt):
+        out.append("\tpthread_join(th[%d], NULL);" % t)
+    out.append("\tCALL(fn_leaf, 5);\n\treturn 3;\n}")
+    return "\n".join(out) + "\n", tags
+
+
+FLAGS = {"c": [["-pg", "-O0"], ["-pg", "-O2"], ["-pg", "-O2", "-D_FORTIFY_SOURCE=2"], ["-finstrument-functions", "-O0"],
+               ["-finstrument-functions", "-O2"]],
          "c++": [["-pg", "-O0"], ["-pg", "-O2"], ["-finstrument-functions", "-O1"]]}
 
 LINE_RE = re.compile(r"^\s*\[\s*(\d+)\] \| ( *)([^ ].*)$")
@@ -878,6 +1221,16 @@ def parse_dump(text):
         mt = DUMP_RE.match(line)
         if mt:
             res.setdefault(int(mt.group(1)), []).append((mt.group(2).strip(), mt.group(3), int(mt.group(5))))
+    return res
+
+
+def parse_dump_seq(text):
+    """the records of all tasks in the order dump prints them (merged by time) -> [(tid, entry|exit, name, depth)]"""
+    res = []
+    for line in text.splitlines():
+        mt = DUMP_RE.match(line)
+        if mt:
+            res.append((int(mt.group(1)), mt.group(2).strip(), mt.group(3), int(mt.group(5))))
     return res
 
 
@@ -914,6 +1267,7 @@ def run_e2e_one(ctx, objdir, wd, name, src, lang, flags, timeout_native=10, time
     obs["replay_text"] = rout[:6000]
     drc, dout, _ = sh(["timeout", "30", uft, "dump", "--no-pager", "-d", data], timeout=40, cwd=wd)
     obs["dump"] = parse_dump(dout)
+    obs["dump_seq"] = parse_dump_seq(dout)
     shutil.rmtree(data, ignore_errors=True)
     return obs
 
@@ -962,12 +1316,13 @@ def judge_e2e(obs):
         probs.append(("replay", "main() not found in replay output"))
         return probs, None
     for task, want in calls.items():
+        want2 = [("Guard::~Guard" if n == "dtor" else n, d) for n, d in want]
         if task == 0:
             got = own_funcs(rp[main_tid])
         else:
             others = [own_funcs(e) for t, e in rp.items() if t != main_tid and own_funcs(e)]
-            got = others[0] if others else []
-        want2 = [("Guard::~Guard" if n == "dtor" else n, d) for n, d in want]
+            same = [o for o in others if [n for n, _ in o] == [n for n, _ in want2]]
+            got = same[0] if same else (others[0] if others else [])
         if [n for n, _ in got] != [n for n, _ in want2]:
             probs.append(("calls", "task %d: replay shows calls %s..., the program made %s..." % (
                 task, [n for n, _ in got][:12], [n for n, _ in want2][:12])))
@@ -977,7 +1332,9 @@ def judge_e2e(obs):
                 task, k, got[k][0], got[k][1], want2[k][1])))
     # the record stream of the main task for the replay model (setjmp/longjmp programs)
     stream = None
-    if sj and main_tid in obs.get("dump", {}):
+    # (a program that execs itself restarts at depth 0 in the same task: the stream model has no exec record)
+    # (nor records of an asynchronous handler between a longjmp ENTRY and the EXIT of its setjmp)
+    if sj and main_tid in obs.get("dump", {}) and not any(nm.startswith("exec") or nm == "on_tick" for _, nm, _ in obs["dump"][main_tid]):
         es, si, li = [], 0, 0
         ok = True
         for ty, nm, dep in obs["dump"][main_tid]:
@@ -1007,12 +1364,20 @@ def run_e2e(ctx, objdir):
     from concurrent.futures import ThreadPoolExecutor
     rng = ctx.rng
     cases = []
-    for i in range(ctx.n(24, 600)):
+    for i in range(ctx.n(24, 450)):
         lang = "c" if i % 5 < 3 else "c++"
         g = E2EGen(rng, lang)
         src = g.source()
         flags = rng.choice(FLAGS[lang])
-        cases.append({"name": "p%d" % i, "src": src, "lang": lang, "flags": flags, "tags": sorted(g.tags)})
+        c = {"name": "p%d" % i, "src": src, "lang": lang, "flags": flags, "tags": sorted(g.tags)}
+        # --nest-libcall: the PLTs of the libraries are hooked too (the unwinder's own calls, libc internals)
+        if flags[0] == "-pg" and rng.random() < 0.3:
+            c["record_opts"] = ["-l"]
+            c["tags"] = c["tags"] + ["record -l"]
+        cases.append(c)
+    for i in range(ctx.n(8, 90)):
+        src, tags = gen_xjmp(rng, force_cross=(i < 2))
+        cases.append({"name": "x%d" % i, "src": src, "lang": "c", "flags": rng.choice(FLAGS["c"]), "tags": sorted(tags)})
     witnesses = [
         {"name": "w_oldjb", "src": E2E_WITNESS_OLD_JMPBUF, "lang": "c", "flags": ["-pg", "-O0"], "key": "replay-older-jmpbuf",
          "what": "longjmp to a jmp_buf that is not the most recent setjmp: replay shows the calls made after the jump one "
@@ -1036,10 +1401,34 @@ def run_e2e(ctx, objdir):
                  "of the stale entry of the unwound constructor; the unwinder then continued after the throwing call: exception swallowed"},
         {"name": "w_paddepth", "src": E2E_WITNESS_PAD_LIBCALL_DEPTH, "lang": "c++", "flags": ["-pg", "-O2"], "key": "landing-pad-libcall-depth",
          "what": "a library function called by an inlined destructor in a cleanup pad was shown as a child of the function just unwound"},
+        {"name": "w_ablj", "src": E2E_WITNESS_ABANDONED_LIBCALL_LJ, "lang": "c", "flags": ["-pg", "-O0"], "key": "abandoned-libcall-untraced-longjmp",
+         "what": "a library call (raise) abandoned by siglongjmp from its signal handler was never traced again", "count": ("raise", 3)},
+        {"name": "w_abexc", "src": E2E_WITNESS_ABANDONED_LIBCALL_EXC, "lang": "c++", "flags": ["-pg", "-O0"], "key": "abandoned-libcall-untraced-exception",
+         "what": "a library call (qsort) abandoned by an exception thrown from its callback was never traced again: later callbacks one level too high",
+         "count": ("qsort", 3)},
+        {"name": "w_hdlj", "src": E2E_WITNESS_HANDLER_IN_LONGJMP, "lang": "c", "flags": ["-pg", "-O0"], "key": "handler-inside-siglongjmp",
+         "what": "a pending signal delivered inside siglongjmp (mask restored before the jump): replay resynchronised with the handler's "
+                 "EXIT record and showed every later call at the depth of the longjmp instead of the setjmp"},
+        {"name": "w_sigunwind", "src": E2E_WITNESS_SIGNAL_IN_UNWIND, "lang": "c++", "flags": ["-pg", "-O0"], "key": "signal-during-unwinding",
+         "what": "an asynchronous signal whose handler is traced arrives while a C++ exception propagates: __mcount_entry takes the handler for "
+                 "a function called from a landing pad (in_exception), re-hooks every return address under the unwinder's feet and the "
+                 "traced program aborts or crashes (100 us interval timer, 3000 throws through 60 frames)"},
         {"name": "w_maxstack", "src": E2E_WITNESS_MAX_STACK, "lang": "c", "flags": ["-pg", "-O0"], "key": "setjmp-beyond-rstack-max",
          "record_opts": ["--max-stack=2000"],
          "what": "setjmp with more than MCOUNT_RSTACK_MAX (1024) shadow-stack entries under --max-stack=2000: the snapshot array "
                  "of setup_jmpbuf_rstack overflows its malloc block and the traced program aborts"},
+        {"name": "w_nestlib", "src": E2E_WITNESS_NEST_LIBCALL, "lang": "c++", "flags": ["-pg", "-O2"], "key": "nest-libcall-exception",
+         "record_opts": ["-l"],
+         "what": "record --nest-libcall on a C++ program that throws: the unwinder's own library calls were taken for landing-pad "
+                 "calls (in_exception), every return address was hooked again under its feet and the program died in std::terminate"},
+        {"name": "w_nestlib2", "src": E2E_WITNESS_NEST_LIBCALL_CATCH, "lang": "c++", "flags": ["-pg", "-O0"], "key": "nest-libcall-begin-catch",
+         "record_opts": ["-l"],
+         "what": "record --nest-libcall: the library calls made inside the real __cxa_begin_catch (above the frame of the throw, already "
+                 "unwound) were taken for landing-pad calls and hooked the wrapper's own return slot: the traced program crashed"},
+        {"name": "w_nestlib3", "src": E2E_WITNESS_NEST_LIBCALL_RETHROW, "lang": "c++", "flags": ["-pg", "-O0"], "key": "nest-libcall-rethrow",
+         "record_opts": ["-l"],
+         "what": "record --nest-libcall: __cxa_rethrow starts the unwinder with _Unwind_Resume_or_Rethrow, whose return address was "
+                 "hijacked like an ordinary library call: no handler found, std::terminate"},
     ]
     wd = os.path.join(ctx.scratch, "e2e")
 
@@ -1050,11 +1439,12 @@ def run_e2e(ctx, objdir):
     with ThreadPoolExecutor(max_workers=8) as ex:
         results = list(ex.map(work, cases + witnesses))
     streams = []
+    mstreams = []
     nviol = 0
     for c, obs in zip(cases, results[:len(cases)]):
         probs, stream = judge_e2e(obs)
         tags = ["e2e:" + t for t in c["tags"]] + ["e2e:lang=" + c["lang"], "e2e:" + " ".join(c["flags"])]
-        ctx.case(key=("e2e", c["src"], tuple(c["flags"])), nontrivial=any(t in c["tags"] for t in ("longjmp", "throw", "exit-nested", "thread", "vfork-exec", "signal-handler")),
+        ctx.case(key=("e2e", c["src"], tuple(c["flags"]), tuple(c.get("record_opts", ()))), nontrivial=any(t in c["tags"] for t in ("longjmp", "throw", "exit-nested", "thread", "vfork-exec", "signal-handler")),
                  tags=tags, size=len(c["src"]))
         mach = [p for p in probs if p[0] == "machinery"]
         if mach:
@@ -1064,17 +1454,54 @@ def run_e2e(ctx, objdir):
             nviol += 1
             ctx.violation("C11 violated end-to-end (%s): %s" % (probs[0][0], probs[0][1]),
                           {"mode": "e2e", "program": c["src"], "lang": c["lang"], "flags": c["flags"],
+                           "record_opts": list(c.get("record_opts", ())),
                            "problems": [list(p) for p in probs],
                            "native": {"rc": obs.get("native_rc"), "out": obs.get("native_out", "")[-1500:]},
                            "traced": {"rc": obs.get("traced_status"), "out": obs.get("traced_out", "")[-1500:]},
                            "replay_text": obs.get("replay_text", "")}, True)
         if stream:
             streams.append((c, stream))
+        # several tasks with one jmp_buf each: the merged stream of all tasks for the multi-task replay model
+        if "xjmp" in c["tags"] and obs.get("dump_seq") and len(obs["dump_seq"]) < 3000 and "replay" in obs:
+            es = []
+            for tid, ty, nm, dep in obs["dump_seq"]:
+                if ty == "entry":
+                    kind = "(SSetjmp 0)" if nm in SETJMP_FAMILY else "(SLongjmp 0)" if nm in LONGJMP_FAMILY else "SNormal"
+                    es.append("(%d, SEntry %s)" % (tid, kind))
+                else:
+                    es.append("(%d, SExit %d)" % (tid, dep))
+            mstreams.append((c, es, [(tid, [d for _, d in ents]) for tid, ents in sorted(obs["replay"].items())]))
+    if mstreams:
+        defs = "Definition ms : list (list (N * sev) * list (N * list N)) := [\n%s\n].\n" % ";\n".join(
+            "([%s], [%s])" % ("; ".join(es), "; ".join("(%d, [%s])" % (t, "; ".join("%d" % d for d in ds)) for t, ds in shown))
+            for _, es, shown in mstreams)
+        ev = coq.run_cases(ctx, "replay_task_streams", PRE, defs, [
+            ("mismatch", "bad_indices (fun p => agree_replay_tasks (fst p) (snd p)) ms 0"),
+            ("violations", "bad_indices (fun p => ok_replay_tasks (fst p) (snd p)) ms 0")])
+        if ev is not None:
+            mm = coq.parse_nat_list(ev["mismatch"])
+            vv = coq.parse_nat_list(ev["violations"])
+            ctx.extra["replay_task_streams_checked"] = len(mstreams)
+            for i in vv[:2]:
+                c = mstreams[i][0]
+                ctx.violation("C11 violated: with several tasks calling setjmp/longjmp the depths `uftrace replay` shows differ from "
+                              "the true depths of the merged record stream (ok_replay_tasks rejects the implementation's output)",
+                              {"mode": "e2e-replay", "program": c["src"], "flags": c["flags"], "lang": "c"}, True)
+            if mm and not vv:
+                c = mstreams[mm[0]][0]
+                ctx.violation("multi-task replay model and `uftrace replay` disagree on %d merged record stream(s)" % len(mm),
+                              {"mode": "e2e-replay", "correspondence": "C11.Model.rpm_run vs uftrace replay",
+                               "first_disagreement": {"program": c["src"], "flags": c["flags"], "lang": "c"}}, False)
     # record streams of the setjmp/longjmp programs against the replay model, inside Coq
     wres = dict(zip([w["name"] for w in witnesses], results[len(cases):]))
     wprobs = {}
     for w in witnesses:
         probs, stream = judge_e2e(wres[w["name"]])
+        if w.get("count") and not probs:
+            nm, want = w["count"]
+            got = sum(1 for ents in wres[w["name"]].get("replay", {}).values() for n, d in ents if n == nm)
+            if got != want:
+                probs.append(("calls", "%s() is called %d times but replay shows %d calls" % (nm, want, got)))
         if w["name"] == "w_paddepth" and not probs:
             # main(0) t1(1) t2(2): puts() is called from t2's cleanup pad, true depth 3, after t3 was closed
             for ents in wres[w["name"]].get("replay", {}).values():
@@ -1118,7 +1545,8 @@ def run_e2e(ctx, objdir):
         still = bool(probs) and not any(p[0] == "machinery" for p in probs)
         ctx.case(key=("witness", w["key"]), tags=["e2e:witness:" + w["key"], "e2e:witness-%s" % ("fails" if still else "passes")])
         # listed -> KNOWN-FINDING; unlisted and still failing -> VIOLATION (ctx.known_finding does both)
-        ctx.known_finding(w["key"], w["what"], still, {"mode": "e2e", "program": w["src"], "flags": w["flags"]})
+        ctx.known_finding(w["key"], w["what"], still, {"mode": "e2e", "program": w["src"], "flags": w["flags"],
+                                                       "lang": w["lang"], "record_opts": list(w.get("record_opts", ()))})
         if still:
             cand.append({"key": w["key"], "what": w["what"], "observed": [list(p) for p in probs], "flags": w["flags"]})
     ctx.extra["candidate_findings"] = cand
@@ -1155,19 +1583,29 @@ def has_nonlocal(ops):
 
 def run_inproc(ctx, objdir):
     h = Harness(ctx, objdir)
-    progs = [({"corpus"}, c) for c in CORPUS + [WITNESS_RESUME_ALIAS]]
-    for i in range(ctx.n(150, 6000)):
+    progs = [({"corpus"}, c) for c in CORPUS + [WITNESS_RESUME_ALIAS, MIXED_CHAIN]]
+    for i in range(ctx.n(150, 4000)):
         tags = set()
         realistic = ctx.rng.random() < 0.6
         tags.add("slots:call-site" if realistic else "slots:free")
         ops = Prog(ctx.rng, tags, realistic).run(ctx.rng.choice([15, 30, 50, 70]))
         progs.append((tags, ops))
-    frees = [MIXED_CHAIN, WITNESS_FENTRY]
-    for i in range(ctx.n(200, 5000)):
+    frees = [WITNESS_FENTRY]
+    for i in range(ctx.n(200, 3500)):
         frees.append(gen_free(ctx.rng, ctx.rng.choice([8, 20, 40])))
-    flags, results = h.run_many([ops for _, ops in progs] + frees)
+    vprogs = []
+    for i in range(ctx.n(60, 1000)):
+        tags = set()
+        realistic = ctx.rng.random() < 0.6
+        tags.add("slots:call-site" if realistic else "slots:free")
+        vprogs.append((tags, Prog(ctx.rng, tags, realistic, with_vfork=True).run(ctx.rng.choice([15, 30, 50]))))
+    flags, results = h.run_many([ops for _, ops in progs] + frees + [ops for _, ops in vprogs])
     legal = [(ops, res) for (_, ops), res in zip(progs, results)]
-    free = list(zip(frees, results[len(progs):]))
+    free = list(zip(frees, results[len(progs):len(progs) + len(frees)]))
+    vforks = [(ops, res) for (_, ops), res in zip(vprogs, results[len(progs) + len(frees):])]
+    for (tags, ops), res in zip(vprogs, results[len(progs) + len(frees):]):
+        ctx.case(key=("vfork", repr(ops)), nontrivial=any(o[0] == "Vfork" for o in ops),
+                 tags=["inproc:" + t for t in sorted(tags)] + ["inproc:vfork-program"], size=len(ops))
     for (tags, ops), res in zip(progs, results):
         ctx.case(key=("legal", tuple(ops)), nontrivial=has_nonlocal(ops),
                  tags=["inproc:" + t for t in sorted(tags)], size=len(ops),
@@ -1175,14 +1613,26 @@ def run_inproc(ctx, objdir):
     for ops, res in free:
         ctx.case(key=("free", tuple(ops)), nontrivial=has_nonlocal(ops),
                  tags=["inproc:free", "inproc:free-crash" if res["crashed"] else "inproc:free-complete"], size=len(ops))
-    # listed in-process finding: the mixed PLT/mcount tail-call chain (free[0]) still ends the process?
-    ctx.known_finding("rehook-mixed-chain",
-                      "a tail-call chain mixing a PLT entry and an mcount entry is re-hooked with the trampoline of the oldest "
-                      "entry: plthook_exit `invalid dynsym idx` ends the process", bool(free[0][1]["crashed"]),
-                      {"mode": "inproc", "case": case_json(free[0][0], free[0][1])})
-    ev = evaluate_inproc(ctx, legal, free, flags)
+    ev = evaluate_inproc(ctx, legal, free, flags, vforks=vforks)
     if ev is None:
         return None
+    if ev["illegal_vfork"]:
+        ops, res = vforks[ev["illegal_vfork"][0]]
+        ctx.broken("generator bug: %d generated vfork program(s) are outside the checker's domain" % len(ev["illegal_vfork"]),
+                   json.dumps([top_lines(o) for o in ops])[:3000])
+    for i in [i for i in ev["violations_vfork"] if i not in ev["illegal_vfork"]][:3]:
+        ops, res = vforks[i]
+        ctx.violation("C11 violated in-process (vfork): a return in the vfork child or in the parent after it does not reach its "
+                      "real caller / wrong number of exit hooks",
+                      {"mode": "inproc-vfork", "script": [l for o in ops for l in top_lines(o)],
+                       "impl_digests": [list(d[:3]) + [[list(e) for e in d[3]]] + list(d[4:]) for d in res["digests"]]}, True)
+    if ev["mismatch_vfork"] and not ev["violations_vfork"] and not ev["violations"]:
+        ops, res = vforks[ev["mismatch_vfork"][0]]
+        ctx.violation("model and libmcount disagree on %d program(s) with vfork sections" % len(ev["mismatch_vfork"]),
+                      {"mode": "inproc-vfork", "correspondence": "C11.Model.lstepT vs libmcount (prepare/setup/restore_vfork)",
+                       "script": [l for o in ops for l in top_lines(o)],
+                       "impl_digests": [list(d[:3]) + [[list(e) for e in d[3]]] + list(d[4:]) for d in res["digests"]],
+                       "impl_records": [list(r) for r in res["recs"]], "why": res["why"]}, False)
     if ev["illegal"]:
         ops, res = legal[ev["illegal"][0]]
         ctx.broken("generator bug: %d generated program(s) are outside the checker's domain (Model.rstep rejects them)"
@@ -1244,7 +1694,8 @@ def replay(ctx, obj):
     if prog:
         flags = obj.get("flags") or (obj.get("first_disagreement") or {}).get("flags") or ["-pg", "-O0"]
         lang = obj.get("lang") or ("c++" if "#include <c" in prog or "try {" in prog else "c")
-        obs = run_e2e_one(ctx, objdir, os.path.join(ctx.scratch, "replay"), "r", prog, lang, flags, timeout_rec=15)
+        obs = run_e2e_one(ctx, objdir, os.path.join(ctx.scratch, "replay"), "r", prog, lang, flags, timeout_rec=15,
+                          record_opts=obj.get("record_opts") or ())
         probs, stream = judge_e2e(obs)
         ctx.case(key="replay-e2e", sample={"problems": [list(p) for p in probs]})
         ctx.log("replayed end-to-end case:", probs)
